@@ -31,7 +31,11 @@ class World(object):
     that are mutable containers (for the non-mutation check)."""
 
     def __init__(self, tables, mode='alias', tempdir=None, table_factory=None):
-        if table_factory is None:
+        if table_factory is None and mode == 'plain':
+            # the plain Python lists themselves (what most users pass):
+            # nothing between petl and the caller's container
+            self.s = list(tables)
+        elif table_factory is None:
             self.s = [SimTable(t, mode=mode, name='s%d' % i)
                       for i, t in enumerate(tables)]
         else:
@@ -1231,6 +1235,10 @@ V('selectop',
   lambda e, w: e.selectcontains(w.s[0], 'b', 'x', complement=True),
   lambda e, w: e.selecttrue(w.s[0], 'a', complement=True),
   lambda e, w: e.selectisinstance(w.s[0], 'd', (str, int), complement=True))
+# (the function form, called on the source as it is)
+V('cache', lambda e, w: _cache(e)(w.s[0]),
+  lambda e, w: _cache(e)(w.s[0], n=3),
+  lambda e, w: _cache(e)(w.s[0], n=None))
 V('hashcomplement',
   lambda e, w: e.hashcomplement(e.wrap(w.s[0]), e.wrap(w.s[1])))
 
